@@ -34,6 +34,7 @@ fn parse_list(s: &str) -> Vec<(Method, String)> {
 }
 
 pub fn run(case: &str) -> String {
+    crate::util::note_current(case);
     let (regs, qs) = case.split_once('|').unwrap();
     let regs = parse_list(regs);
     let qs = parse_list(qs);
